@@ -245,12 +245,6 @@ Definition run_taxonomy (c : sx) : sx :=
       sx_of_nodes (roots hyp VP);
       sx_of_nodes (leaves (hyp_of gh) VP) ].
 
-Fixpoint forall2b {T} (f : T -> T -> bool) (a b : list T) : bool :=
-  match a, b with
-  | [], [] => true
-  | x :: a', y :: b' => f x y && forall2b f a' b'
-  | _, _ => false
-  end.
 (* hypernym paths, roots and leaves are compared as sets (the property does not
    speak about their order); common and lowest common hypernyms (sorted by the
    code), the shortest path, depths and the taxonomy depth exactly *)
